@@ -55,3 +55,17 @@ PROPS["C15"] = dict(
     assumptions=ASSUME_COMMON + ["An ignore character between the two digits of a hex pair is treated as unspecified (documentation says 'any location', implementation skips only between pairs)",
                                  "after a failed decode only the return value and memory safety are asserted (contents of *bin_len / *end / buffer unspecified)"],
 )
+
+PROPS["C16"] = dict(
+    name="c16", sources=["props/c16.cpp"], engine="enumerator",
+    builds=[("asan", "native")],
+    builds_thorough=[("asan", "native"), ("asan", "portable"), ("plain", "native")],
+    level="exploration",
+    rule=("Pad: every (unpadded length 0..320) x (block size 0..130, 255, 256, 257, 1000, 4096, 65536, 2^20; large blocks thinned) x capacity {unpadded, padded-1, padded, "
+          "padded+1, padded+blocksize+3, 0} with NULL and non-NULL length pointer; oracle: 0x80 then zeros to the next multiple, data and bytes past the padded length untouched, "
+          "-1 without any write when it does not fit or block size is 0, unpad(pad(x)) == |x|. Unpad: EXHAUSTIVE final blocks over {00,80,01,ff} for block sizes 1..6 with 0..2 preceding "
+          "blocks full of markers; for larger block sizes marker at every position x {valid, 0x81, junk after, later marker, missing, markers before} x {aligned, non-multiple length}; "
+          "too-short buffers and block size 0. Bytes before the final block are ASan-poisoned during sodium_unpad. Non-trivial = block size >= 2; distinct = (length, block size, capacity | final block contents)."),
+    exhaustive_axes="(unpadded 0..320) x (blocksize 0..130); all final blocks over a 4-symbol alphabet for block sizes 1..6",
+    assumptions=ASSUME_COMMON + ["for a padded length that is not a multiple of the block size, 'final block' means the last blocksize bytes (as the implementation and utils.h describe)"],
+)
